@@ -335,6 +335,7 @@ func collectNodes(roots []ast.Node, ret *pRet) {
 	}
 }
 
+var flushOnHang func()     // flushes the record files before the watchdog exits (the main goroutine is stuck in the parse call)
 var watchStart atomic.Int64 // unix nanos of the running call, 0 if none
 var watchInfo atomic.Value  // string describing the running call
 
@@ -355,12 +356,17 @@ func startWatchdog(hangFile string, limit time.Duration) {
 			}
 			if elapsed > limit || tooBig {
 				info, _ := watchInfo.Load().(string)
+				if flushOnHang != nil {
+					flushOnHang()
+				}
 				os.WriteFile(hangFile, []byte(info), 0o644)
 				os.Exit(3)
 			}
 		}
 	}()
 }
+
+var callsDone int // calls completed (or skipped) so far in this process
 
 func parseOne(entry, in string, doExercise bool) (rec pRec) {
 	rec = pRec{Entry: entry, Buf: ints(in), Evs: []pEv{}}
@@ -369,7 +375,7 @@ func parseOne(entry, in string, doExercise bool) (rec pRec) {
 	p := &memefish.Parser{Lexer: &memefish.Lexer{File: file}}
 	evs := make([]pEv, 0, 64)
 	curEvents, curFile = &evs, file
-	watchInfo.Store(fmt.Sprintf("{\"entry\":%q,\"buf\":%s}", entry, intsJSON(in)))
+	watchInfo.Store(fmt.Sprintf("{\"entry\":%q,\"buf\":%s,\"done\":%d}", entry, intsJSON(in), callsDone))
 	watchStart.Store(time.Now().UnixNano())
 	var nodes []ast.Node
 	var err error
@@ -465,6 +471,7 @@ func init() {
 		if err != nil {
 			return err
 		}
+		flushOnHang = func() { cw.close() }
 		list := entries
 		rot := false
 		switch *ents {
@@ -495,6 +502,7 @@ func init() {
 			inputs++
 			for _, e := range use {
 				calls++
+				callsDone = calls - 1
 				if calls <= *skip {
 					continue
 				}
